@@ -252,6 +252,127 @@ class _DeElse(ast.NodeTransformer):
         return node
 
 
+class _DeWalrus(ast.NodeTransformer):
+    """Normal form (behaviour-preserving): `while (x := e): B` is read as `while True: x = e; if not x: break; B` and
+    `while (x := e) != c: B` as `while True: x = e; if x == c: break; B` -- the spelling the package uses today for its chunk loops."""
+
+    def visit_While(self, node):
+        self.generic_visit(node)
+        t = node.test
+        ne, brk = None, None
+        if isinstance(t, ast.NamedExpr) and isinstance(t.target, ast.Name):
+            ne = t
+            brk = ast.UnaryOp(op=ast.Not(), operand=ast.Name(t.target.id, ast.Load()))
+        elif isinstance(t, ast.Compare) and len(t.ops) == 1 and isinstance(t.ops[0], (ast.NotEq, ast.Eq)) and isinstance(t.left, ast.NamedExpr) \
+                and isinstance(t.left.target, ast.Name) and isinstance(t.comparators[0], ast.Constant):
+            ne = t.left
+            brk = ast.Compare(left=ast.Name(ne.target.id, ast.Load()), ops=[ast.Eq() if isinstance(t.ops[0], ast.NotEq) else ast.NotEq()], comparators=t.comparators)
+        if ne is None or node.orelse:
+            return node
+        asg = ast.copy_location(ast.Assign(targets=[ast.Name(ne.target.id, ast.Store())], value=ne.value), t)
+        cond = ast.copy_location(ast.If(test=brk, body=[ast.copy_location(ast.Break(), t)], orelse=[]), t)
+        new = ast.copy_location(ast.While(test=ast.copy_location(ast.Constant(True), t), body=[asg, cond] + node.body, orelse=[]), node)
+        ast.fix_missing_locations(new)
+        return new
+
+
+class _Accumulate(ast.NodeTransformer):
+    """Normal form (behaviour-preserving): `acc = []` immediately followed by `for t in it: [if c:] acc.append(e)` (likewise `set()`/`.add`,
+    `{}`/`acc[k] = v`) is read as the comprehension `acc = [e for t in it if c]`; and `acc = <comprehension>; return acc` with no other use of
+    `acc` as `return <comprehension>`.  Only when `acc` does not occur in `it`, `e`, `c` and the loop has no else / break / continue."""
+
+    def visit_FunctionDef(self, node):
+        self.generic_visit(node)
+        self._uses = {}
+        for n in ast.walk(node):
+            if isinstance(n, ast.Name):
+                self._uses[n.id] = self._uses.get(n.id, 0) + 1
+        for ch in ast.walk(node):
+            for field in ('body', 'orelse', 'finalbody'):
+                v = getattr(ch, field, None)
+                if isinstance(v, list) and v and isinstance(v[0], ast.stmt):
+                    setattr(ch, field, self._block(v))
+        return node
+
+    visit_AsyncFunctionDef = visit_FunctionDef
+
+    @staticmethod
+    def _kind(v):
+        if isinstance(v, ast.List) and not v.elts:
+            return 'list'
+        if isinstance(v, ast.Dict) and not v.keys:
+            return 'dict'
+        if isinstance(v, ast.Call) and isinstance(v.func, ast.Name) and v.func.id in ('set', 'list', 'dict') and not v.args and not v.keywords:
+            return v.func.id
+        return None
+
+    def _comp(self, init, loop):
+        acc = init.targets[0].id
+        kind = self._kind(init.value)
+        if kind is None or not isinstance(loop, ast.For) or loop.orelse:
+            return None
+        body, ifs = loop.body, []
+        while len(body) == 1 and isinstance(body[0], ast.If) and not body[0].orelse:
+            ifs.append(body[0].test)
+            body = body[0].body
+        if len(body) != 1:
+            return None
+        st = body[0]
+        parts = [loop.iter, loop.target] + ifs
+        comp = None
+        gen = ast.comprehension(target=loop.target, iter=loop.iter, ifs=ifs, is_async=0)
+        if kind in ('list', 'set') and isinstance(st, ast.Expr) and isinstance(st.value, ast.Call) and isinstance(st.value.func, ast.Attribute) \
+                and isinstance(st.value.func.value, ast.Name) and st.value.func.value.id == acc and st.value.func.attr == ('append' if kind == 'list' else 'add') \
+                and len(st.value.args) == 1 and not st.value.keywords:
+            parts.append(st.value.args[0])
+            comp = (ast.ListComp if kind == 'list' else ast.SetComp)(elt=st.value.args[0], generators=[gen])
+        elif kind == 'dict' and isinstance(st, ast.Assign) and len(st.targets) == 1 and isinstance(st.targets[0], ast.Subscript) \
+                and isinstance(st.targets[0].value, ast.Name) and st.targets[0].value.id == acc:
+            parts += [st.targets[0].slice, st.value]
+            comp = ast.DictComp(key=st.targets[0].slice, value=st.value, generators=[gen])
+        if comp is None:
+            return None
+        for p in parts:
+            for x in ast.walk(p):
+                if isinstance(x, ast.Name) and x.id == acc:
+                    return None
+                if isinstance(x, (ast.Yield, ast.YieldFrom, ast.Await, ast.NamedExpr)):
+                    return None
+        # the loop target must not be used outside the loop (a comprehension does not leak it)
+        tnames = [x.id for x in ast.walk(loop.target) if isinstance(x, ast.Name)]
+        inner = {}
+        for x in ast.walk(loop):
+            if isinstance(x, ast.Name):
+                inner[x.id] = inner.get(x.id, 0) + 1
+        if any(self._uses.get(t, 0) != inner.get(t, 0) for t in tnames):
+            return None
+        new = ast.copy_location(ast.Assign(targets=init.targets, value=ast.copy_location(comp, loop)), init)
+        ast.fix_missing_locations(new)
+        return new
+
+    def _block(self, stmts):
+        out = []
+        i = 0
+        while i < len(stmts):
+            st = stmts[i]
+            nxt = stmts[i + 1] if i + 1 < len(stmts) else None
+            if nxt is not None and isinstance(st, ast.Assign) and len(st.targets) == 1 and isinstance(st.targets[0], ast.Name):
+                new = self._comp(st, nxt)
+                if new is not None:
+                    st = new
+                    i += 1
+                    nxt = stmts[i + 1] if i + 1 < len(stmts) else None
+                    acc = st.targets[0].id
+                    # acc = <comp>; return acc   (acc: one store in the init, one in ... no: after folding exactly 2 occurrences remain)
+                    if isinstance(nxt, ast.Return) and isinstance(nxt.value, ast.Name) and nxt.value.id == acc and self._uses.get(acc, 0) == 3:
+                        out.append(ast.copy_location(ast.Return(value=st.value), nxt))
+                        i += 2
+                        continue
+            out.append(st)
+            i += 1
+        return out
+
+
 _CMP_SWAP = {ast.Lt: ast.Gt, ast.Gt: ast.Lt, ast.LtE: ast.GtE, ast.GtE: ast.LtE, ast.Eq: ast.Eq, ast.NotEq: ast.NotEq}
 
 
@@ -307,6 +428,8 @@ class Program:
                 tree = ast.parse(src, filename=path)
             except SyntaxError as exc:
                 raise AnalysisError(f'cannot parse {path}: {exc}') from exc
+            tree = _DeWalrus().visit(tree)
+            tree = _Accumulate().visit(tree)
             tree = _CanonCompare().visit(tree)
             tree = _DeElse().visit(tree)
             tree = _Canon().visit(tree)
@@ -540,3 +663,11 @@ def norm(node):
         return ast.unparse(node)
     except Exception:  # pragma: no cover
         return ast.dump(node)
+
+
+def ancestors(node):
+    """Enclosing AST nodes of `node`, innermost first (uses the `_parent` links set by the loader)."""
+    n = getattr(node, '_parent', None)
+    while n is not None:
+        yield n
+        n = getattr(n, '_parent', None)
